@@ -43,6 +43,13 @@ fn main() {
                 writeln!(out, "{}", lexparse::lexparse_case(&v)).unwrap();
             }
         }
+        "parse-ast" => {
+            for line in stdin.lock().lines() {
+                let line = line.unwrap();
+                let v: serde_json::Value = serde_json::from_str(&line).unwrap();
+                writeln!(out, "{}", lexparse::parse_ast_case(&v)).unwrap();
+            }
+        }
         "sep" => {
             for line in stdin.lock().lines() {
                 let line = line.unwrap();
